@@ -232,8 +232,8 @@ Proof. intros [H|H]; subst; reflexivity. Qed.
 Lemma lookup_isotope_str r : wf r = true -> forall i, In i (isotopes r) ->
   forall s n, isotope_spelling i s -> n = None \/ n = Some 0 -> lookup_isotope r (VStr s) n = Ok i.
 Proof.
-  intros W i Hi s n Hs Hn. unfold lookup_isotope, lookup_isotope_ix.
-  rewrite (truthy_none_or_zero n Hn). cbn [py_str].
+  intros W i Hi s n Hs Hn. unfold lookup_isotope, lookup_isotope_ix, lookup_isotope_core.
+  rewrite (truthy_none_or_zero n Hn). cbn [py_str option_map].
   rewrite (isotope_key_lookup r W i (lower s) Hi); [reflexivity|].
   unfold isotope_keys. destruct Hs as [H|[H|[H|H]]]; rewrite H; try rewrite lower_app, lower_zstr; simpl; auto.
 Qed.
@@ -246,6 +246,26 @@ Proof.
 Qed.
 
 (* element given in any way that lookup_element resolves to the isotope's element, plus the mass number *)
+(* the general form: any argument (string, int, Element object, any other object) that
+   lookup_element resolves to the isotope's element, and any truthy number whose str() is the
+   decimal mass number (an int, a numpy integer, the string "2" ...) *)
+Lemma lookup_isotope_core_number r : wf r = true -> forall i, In i (isotopes r) ->
+  forall v, (forall j, v <> VSpecies (SI j)) -> lookup_element r v = Ok (i_element i) ->
+  lookup_isotope_core (element_index r) (isotope_index r) v (Some (zstr (i_A i))) = Ok i.
+Proof.
+  intros W i Hi v Hv Hl. unfold lookup_isotope_core. unfold lookup_element in Hl.
+  destruct v as [s|z|[e|j]|s].
+  - rewrite Hl. rewrite lower_app, lower_zstr.
+    rewrite (isotope_key_lookup r W i _ Hi); [reflexivity|]. simpl; auto.
+  - rewrite Hl. rewrite lower_app, lower_zstr.
+    rewrite (isotope_key_lookup r W i _ Hi); [reflexivity|]. simpl; auto.
+  - rewrite Hl. rewrite lower_app, lower_zstr.
+    rewrite (isotope_key_lookup r W i _ Hi); [reflexivity|]. simpl; auto.
+  - exfalso; eapply Hv; reflexivity.
+  - rewrite Hl. rewrite lower_app, lower_zstr.
+    rewrite (isotope_key_lookup r W i _ Hi); [reflexivity|]. simpl; auto.
+Qed.
+
 Lemma lookup_isotope_number r : wf r = true -> forall i, In i (isotopes r) ->
   forall v, (forall j, v <> VSpecies (SI j)) -> lookup_element r v = Ok (i_element i) ->
   lookup_isotope r v (Some (i_A i)) = Ok i.
@@ -254,15 +274,16 @@ Proof.
   assert (T : truthy (Some (i_A i)) = Some (i_A i)).
   { unfold truthy. destruct (Z.eqb_spec (i_A i) 0) as [E|E]; [|reflexivity].
     exfalso; eapply wf_mass_nonzero; eauto. }
-  unfold lookup_element in Hl.
-  destruct v as [s|z|[e|j]].
-  - rewrite T, Hl. rewrite lower_app, lower_zstr.
-    rewrite (isotope_key_lookup r W i _ Hi); [reflexivity|]. simpl; auto.
-  - rewrite T, Hl. rewrite lower_app, lower_zstr.
-    rewrite (isotope_key_lookup r W i _ Hi); [reflexivity|]. simpl; auto.
-  - rewrite T, Hl. rewrite lower_app, lower_zstr.
-    rewrite (isotope_key_lookup r W i _ Hi); [reflexivity|]. simpl; auto.
-  - exfalso; eapply Hv; reflexivity.
+  rewrite T. cbn [option_map]. apply lookup_isotope_core_number; assumption.
+Qed.
+
+(* any other object whose str() spells an identifier of the element (numpy.str_('He'), numpy.int64(2), ...) *)
+Lemma lookup_element_other r : wf r = true -> forall e, In e (elements r) ->
+  forall s, element_spelling e s -> lookup_element r (VOther s) = Ok e.
+Proof.
+  intros W e He s Hs. unfold lookup_element, lookup_element_ix. cbn [py_str].
+  rewrite (element_key_lookup r W e (lower s) He); [reflexivity|].
+  unfold element_keys. destruct Hs as [H|[H|H]]; rewrite H; simpl; auto.
 Qed.
 
 Lemma lookup_isotope_obj r i n : lookup_isotope r (VSpecies (SI i)) n = Ok i.
@@ -279,7 +300,7 @@ Qed.
 Lemma lookup_isotope_unknown r s :
   (forall i, In i (isotopes r) -> ~ In (lower s) (isotope_keys i)) -> lookup_isotope r (VStr s) None = ErrValue.
 Proof.
-  intros H. unfold lookup_isotope, lookup_isotope_ix, isotope_index. cbn [py_str truthy].
+  intros H. unfold lookup_isotope, lookup_isotope_ix, lookup_isotope_core, isotope_index. cbn [py_str truthy option_map].
   rewrite index_miss; auto.
 Qed.
 
@@ -451,22 +472,32 @@ Proof.
     [apply Z.eqb_eq in H | apply String.eqb_eq in H]; subst; reflexivity.
 Qed.
 
+Lemma tlist_eqb_eq a : forall b, tlist_eqb a b = true -> a = b.
+Proof.
+  induction a as [|x a IH]; intros [|y b]; simpl; try discriminate; [reflexivity|].
+  intros H. apply andb_true_iff in H. destruct H as [H1 H2].
+  apply tval_eqb_eq in H1. apply IH in H2. subst; reflexivity.
+Qed.
+
 Lemma line_eq_same r : wf r = true -> forall a b, In (l_element a) (all_species r) -> In (l_element b) (all_species r) ->
   line_eq a b = true -> a = b.
 Proof.
-  intros W a b Ha Hb. unfold line_eq. rewrite !andb_true_iff. intros [[H1 H2] [H3 H4]].
+  intros W a b Ha Hb. unfold line_eq. rewrite !andb_true_iff. intros [[H1 H2] H3].
   apply (eq_implies_same r W _ _ Ha Hb) in H1. apply Z.eqb_eq in H2.
-  apply tval_eqb_eq in H3, H4. destruct a, b; simpl in *; subst; reflexivity.
+  apply tlist_eqb_eq in H3. destruct a, b; simpl in *; subst; reflexivity.
 Qed.
 
 Lemma tval_eqb_refl t : tval_eqb t t = true.
 Proof. destruct t; simpl; [apply Z.eqb_refl | apply String.eqb_refl]. Qed.
 
+Lemma tlist_eqb_refl t : tlist_eqb t t = true.
+Proof. induction t as [|x t IH]; simpl; [reflexivity | rewrite tval_eqb_refl, IH; reflexivity]. Qed.
+
 Lemma line_eq_refl a : line_eq a a = true.
-Proof. unfold line_eq. rewrite py_eq_refl, Z.eqb_refl, !tval_eqb_refl. reflexivity. Qed.
+Proof. unfold line_eq. rewrite py_eq_refl, Z.eqb_refl, tlist_eqb_refl. reflexivity. Qed.
 
 Lemma line_key_refl a : line_key_eqb a a = true.
-Proof. unfold line_key_eqb. rewrite hkey_eqb_refl, Z.eqb_refl, !tval_eqb_refl. reflexivity. Qed.
+Proof. unfold line_key_eqb. rewrite hkey_eqb_refl, Z.eqb_refl, tlist_eqb_refl. reflexivity. Qed.
 
 Lemma line_eq_hash r : wf r = true -> forall a b, In (l_element a) (all_species r) -> In (l_element b) (all_species r) ->
   (line_eq a b = true -> line_key_eqb a b = true)
@@ -486,14 +517,14 @@ Lemma line_eq_key_same_class a b :
   proper_subclass (l_element a) (l_element b) = false -> proper_subclass (l_element b) (l_element a) = false ->
   line_eq a b = true -> line_key_eqb a b = true.
 Proof.
-  intros C1 C2. unfold line_eq, line_key_eqb. rewrite !andb_true_iff. intros [[H1 H2] [H3 H4]].
+  intros C1 C2. unfold line_eq, line_key_eqb. rewrite !andb_true_iff. intros [[H1 H2] H3].
   repeat split; auto. apply eq_hash_same_class; assumption.
 Qed.
 
 (* the constructor guard: a line exists exactly for 0 <= charge <= Z - 1 *)
-Lemma new_line_guard o c u l :
-  (0 <= c <= species_Z o - 1 -> new_line o c u l = Ok (mkLine o c u l))
-  /\ (c < 0 \/ c > species_Z o - 1 -> new_line o c u l = ErrValue).
+Lemma new_line_guard o c tr :
+  (0 <= c <= species_Z o - 1 -> new_line o c tr = Ok (mkLine o c tr))
+  /\ (c < 0 \/ c > species_Z o - 1 -> new_line o c tr = ErrValue).
 Proof.
   unfold new_line. destruct (Z.gtb_spec c (species_Z o - 1)); destruct (Z.ltb_spec c 0); split; intros; try reflexivity; lia.
 Qed.
